@@ -8,6 +8,7 @@ CONSTANTS
   GCOn = TRUE
   MTB = 24
   GCP = 3
+  JumpOn = FALSE
   Dev = {}
   Depth = 90
 INVARIANT Emit
